@@ -176,3 +176,32 @@ def stratified_sample(items: list, key: Callable, n: int, seed) -> list:
 
 def short_hash(s: str) -> str:
     return hashlib.sha1(s.encode("utf-8", "surrogatepass")).hexdigest()[:12]
+
+
+def commentize(text: str, key: str) -> str:
+    """Layout-hostile but (usually) meaning-preserving mutation: put inline / block comments and line
+    breaks at token boundaries - before brackets, after commas, in place of single spaces."""
+    r = rng("cmt", key)
+    out = text
+    for _ in range(r.randint(1, 4)):
+        op = r.randrange(5)
+        if op == 0:
+            idxs = [i for i, ch in enumerate(out) if ch == "("]
+            rep = r.choice([" -- c\n(", " -- note\n    (", "/* c */("])
+        elif op == 1:
+            idxs = [i for i, ch in enumerate(out) if ch == ","]
+            rep = r.choice([", -- c\n", " -- c\n,", ",/* c */"])
+        elif op == 2:
+            idxs = [i for i, ch in enumerate(out) if ch == " "]
+            rep = r.choice([" -- c\n", "\n-- c\n", " /* c */ ", "\n\n"])
+        elif op == 3:
+            idxs = [i for i, ch in enumerate(out) if ch == "["]
+            rep = r.choice([" -- c\n[", "/* c */["])
+        else:
+            idxs = [i for i, ch in enumerate(out) if ch == "."]
+            rep = r.choice([" -- c\n.", ". -- c\n"])
+        if not idxs:
+            continue
+        i = r.choice(idxs)
+        out = out[:i] + rep + out[i + 1 :]
+    return out
